@@ -10,6 +10,7 @@ CONSTANTS MaxWraps = 4
           MaxArgSteps = 0
           MaxDecoObjs = 3
           MaxDecoCalls = 0
+          MaxOrdChain = 1
           TwoDecos = FALSE
 INIT Init
 NEXT Next
